@@ -75,7 +75,8 @@ impl NodeChild {
                 .read_line(&mut buf)
                 .map_err(|e| format!("evaluator died (read): {e}"))?;
             if n == 0 {
-                return Err("evaluator died (eof)".into());
+                let st = self.child.wait().map(|s| format!("{s}")).unwrap_or_default();
+                return Err(format!("evaluator died (eof; {st})"));
             }
             let v: Value = match serde_json::from_str(&buf) {
                 Ok(v) => v,
